@@ -23,7 +23,7 @@ REPO_SRCS = [
     "src/POMDP/Utils.cpp", "src/POMDP/Algorithms/AMDP.cpp", "src/POMDP/Algorithms/IncrementalPruning.cpp",
     "src/POMDP/Algorithms/Witness.cpp", "src/POMDP/Algorithms/LinearSupport.cpp", "src/POMDP/Algorithms/SARSOP.cpp",
     "src/POMDP/Algorithms/PBVI.cpp", "src/POMDP/Algorithms/PERSEUS.cpp", "src/POMDP/Algorithms/BlindStrategies.cpp",
-    "src/POMDP/Algorithms/FastInformedBound.cpp",
+    "src/POMDP/Algorithms/FastInformedBound.cpp", "src/POMDP/Algorithms/GapMin.cpp",
     "src/Utils/Polytope.cpp", "src/Utils/Probability.cpp", "src/Utils/Combinatorics.cpp", "src/Utils/LP/LpSolveWrapper.cpp",
     "src/Factored/Utils/Core.cpp", "src/Factored/Bandit/Algorithms/Utils/VariableElimination.cpp",
     "src/Factored/Bandit/Algorithms/Utils/LocalSearch.cpp",
@@ -38,8 +38,9 @@ RULE = ("every case runs the SAME call under test 2-3 times in one process (fork
         "different unrelated histories and the runs are compared bitwise (hex floats, string equality): prog = random "
         "Seeder programs (getSeed / setRootSeed / getRootSeed / construct one of 5 object types / sample from it) after 2 "
         "different prefixes, with the object engines compared to std::mt19937(k-th reference draw); vi, pi, pomdp "
-        "(IncrementalPruning/Witness/LinearSupport), sarsop = fresh solver vs. solver reused after a differently sized "
-        "problem (dense/sparse/mixed); fg = random FactorGraph programs (getFactor/write data/erase/reset/copy over 1-3 "
+        "(IncrementalPruning/Witness/LinearSupport), sarsop (delta-sensitive general-regime 3x3x2 POMDPs after a first solve that moves "
+        "delta_), gapmin, pbreuse (PBVI/PERSEUS with engines re-seeded) = fresh solver vs. solver reused after a differently sized "
+        "problem and twice on the same problem (dense/sparse/mixed), complete returned tuples; fg = random FactorGraph programs (getFactor/write data/erase/reset/copy over 1-3 "
         "graphs) with empty vs. stale-filled pool, also compared with the extracted model; ve, rils = maximiser + graph "
         "reuse; seeded = POMCP / MCTS / PBVI / PERSEUS twice with the same root seed; amdp, amdpm = discretizer / whole "
         "AMDP in a fresh child vs. after another AMDP; carrier = one case per hidden-state carrier found by scanning "
@@ -361,6 +362,163 @@ def _judge(found, rel, line, stmt, ctx):
             found.append((rel, line, qual, "namespace-scope-variable"))
 
 
+# ---------------------------------------------------------------- per-object state carried across calls
+# Cheap syntactic criterion (DESIGN §2.2 extension): for every class that has an `operator()`
+# DEFINITION, a data member `name_` is *per-call state* if some method other than a constructor or a
+# `set…` setter writes it.  Such a member is fine if the first textual mention of it in the body of every
+# operator() is a re-initialising write (`m_ = …`, `m_.clear()`, `m_.reset(…)`, `m_.assign(…)`,
+# `m_.setZero()`, `m_.seed(…)`).  Otherwise (first mention is a read / compound update / it is only touched in
+# helper methods) the member can carry information from one call to the next and must be in CARRIED.
+_INIT_WRITE = r"\s*(?:=(?!=)|\.\s*(?:clear|reset|assign|setZero|seed|fill)\s*\()"
+_ANY_WRITE = (r"\s*(?:=(?!=)|\+=|-=|\*=|/=|%=|\|=|&=|\^=|<<=|>>=|\+\+|--|\[[^\]]*\]\s*(?:\.\w+\s*)*(?:=(?!=)|\+=|-=|\*=|/=|\+\+|--)|"
+              r"\.\s*(?:clear|push_back|emplace_back|emplace|insert|erase|resize|reserve|assign|pop_back|pop|push|reset|swap|"
+              r"seed|setZero|fill)\b|"
+              r"\.\s*(?:noalias|row|col|coeffRef|head|tail|topLeftCorner|back|front)\s*\([^;()]*\)\s*(?:\.\s*\w+\s*\(\s*\)\s*)*(?:=(?!=)|\+=|-=|\*=|/=))")
+
+
+def _match_brace(src, i):
+    """index just after the brace group opening at src[i] == '{'"""
+    depth = 0; n = len(src)
+    while i < n:
+        if src[i] == "{": depth += 1
+        elif src[i] == "}":
+            depth -= 1
+            if depth == 0: return i + 1
+        i += 1
+    return n
+
+
+def _match_paren(src, i):
+    depth = 0; n = len(src)
+    while i < n:
+        if src[i] == "(": depth += 1
+        elif src[i] == ")":
+            depth -= 1
+            if depth == 0: return i + 1
+        i += 1
+    return n
+
+
+_CLASS_RE = re.compile(r"(?<!enum\s)\b(class|struct)\s+([A-Za-z_]\w*)\s*(?:final\s*)?(?::[^;{()]*)?\{")
+_FUNC_RE = re.compile(r"(?:\b([A-Za-z_]\w*)\s*(?:<[^<>;{}()]*>)?\s*::\s*)?(operator\s*\(\s*\)|~?[A-Za-z_]\w*)\s*\(")
+
+
+def _functions(src):
+    """(qualifier or None, name, position, body text) for every function DEFINITION in stripped text"""
+    out = []
+    for m in _FUNC_RE.finditer(src):
+        name = re.sub(r"\s+", "", m.group(2))
+        if name in ("if", "for", "while", "switch", "return", "catch", "sizeof", "decltype", "static_assert", "requires", "noexcept", "alignof"):
+            continue
+        j = _match_paren(src, m.end() - 1)
+        k = j
+        # qualifiers, trailing return type, constructor initialiser list
+        mm = re.match(r"\s*(?:const\b|noexcept\b|override\b|final\b|mutable\b|\s)*(?:->\s*[^{;]*?)?\s*(?::(?!:)[^;]*?)?\{", src[k:k + 2000], re.S)
+        if not mm:
+            continue
+        tail = mm.group(0)
+        if ";" in tail or "=" in tail.split("{")[0].split(":")[0]:
+            continue
+        b = k + mm.end() - 1
+        # a constructor initialiser list may contain braces: take the last '{' that starts the body
+        e = _match_brace(src, b)
+        while True:
+            mm2 = re.match(r"\s*,\s*[A-Za-z_]\w*\s*[({]", src[e:e + 200])
+            if not mm2: break
+            nb = src.find("{", e + mm2.end() - 1) if src[e + mm2.end() - 1] == "(" else e + mm2.end() - 1
+            if src[e + mm2.end() - 1] == "(":
+                e2 = _match_paren(src, e + mm2.end() - 1)
+                mm3 = re.match(r"\s*\{", src[e2:e2 + 50])
+                if mm3: b = e2 + mm3.end() - 1; e = _match_brace(src, b); continue
+                e = e2; continue
+            e = _match_brace(src, nb)
+        out.append((m.group(1), name, m.start(), src[b:e]))
+    return out
+
+
+def scan_object_state(repo=None):
+    """-> list of (rel header, class, member, why) for members that may carry state across operator() calls"""
+    repo = repo or os.environ.get("VERIF_REPO", "/repo")
+    texts = {}
+    for top in ("include", "src"):
+        for d, _, fs in os.walk(os.path.join(repo, top)):
+            if os.sep + "Python" in d:
+                continue
+            for f in sorted(fs):
+                if f.endswith((".hpp", ".cpp")):
+                    p = os.path.join(d, f)
+                    texts[os.path.relpath(p, repo)] = _strip(open(p, errors="replace").read())
+    classes = {}        # name -> dict(rel, members=set, methods=[(name, body)])
+    for rel, src in sorted(texts.items()):
+        ranges = []
+        for m in _CLASS_RE.finditer(src):
+            b = m.end() - 1; e = _match_brace(src, b)
+            ranges.append((m.group(2), b, e))
+        def owner(pos):
+            best = None
+            for (nm, b, e) in ranges:
+                if b < pos < e and (best is None or b > best[1]):
+                    best = (nm, b, e)
+            return best[0] if best else None
+        for (nm, b, e) in ranges:
+            c = classes.setdefault(nm, dict(rel=rel, members=set(), methods=[]))
+            if rel.startswith("include"):
+                c["rel"] = rel
+            # member declarations: statements at depth 1 of the class body
+            body = src[b + 1:e - 1]
+            depth = 0; cur = []; stmts = []
+            for ch in body:
+                if ch == "{": depth += 1
+                elif ch == "}":
+                    depth -= 1
+                    if depth == 0: cur = []
+                    continue
+                if depth == 0:
+                    if ch == ";": stmts.append("".join(cur)); cur = []
+                    else: cur.append(ch)
+            for st in stmts:
+                st = re.sub(r"\b(public|private|protected)\s*:", " ", " ".join(st.split())).strip()
+                nt = _drop_angles(st)
+                if not st or "(" in nt.split("=")[0] or re.match(r"^(using|typedef|friend|static|template|enum|class|struct|union)\b", st):
+                    continue
+                if re.search(r"\bconst\b", nt.split("=")[0]) and "*" not in nt and "&" not in nt:
+                    continue
+                for name in _decl_names(nt):
+                    if name.endswith("_"):
+                        c["members"].add(name)
+        for (qual, name, pos, body) in _functions(src):
+            cls = qual or owner(pos)
+            if cls:
+                classes.setdefault(cls, dict(rel=rel, members=set(), methods=[]))["methods"].append((name, body))
+    out = []
+    for cls, c in sorted(classes.items()):
+        calls = [b for (n, b) in c["methods"] if n == "operator()" and not re.search(r"operator\s*\(\s*\)\s*\(|\(\s*\*\s*this\s*\)\s*\(", b)]
+        if not calls or not c["members"]:
+            continue
+        for mname in sorted(c["members"]):
+            pat = re.compile(r"(?<![\w.>])" + re.escape(mname) + r"\b")
+            writers = []
+            for (n, b) in c["methods"]:
+                if n == cls or n == "~" + cls or re.match(r"^set[A-Z_]", n):
+                    continue
+                if re.search(r"(?<![\w.>])" + re.escape(mname) + r"\b" + _ANY_WRITE, b) or re.search(r"(\+\+|--|std::move\s*\(\s*|&\s*)" + re.escape(mname) + r"\b", b):
+                    writers.append(n)
+            if not writers:
+                continue        # a parameter: written only by constructors / setters
+            bad = None
+            for b in calls:
+                m = pat.search(b)
+                if not m:
+                    bad = "never mentioned in operator() although %s writes it" % "/".join(sorted(set(writers)))
+                    break
+                if not re.match(_INIT_WRITE, b[m.end():m.end() + 40]):
+                    bad = "first mention in operator() is not a re-initialising write"
+                    break
+            if bad:
+                out.append((c["rel"], cls, mname, bad))
+    return out
+
+
 def scan_repo(repo=None):
     repo = repo or os.environ.get("VERIF_REPO", "/repo")
     res = []
@@ -388,10 +546,29 @@ def classify(rel, name, kind):
     return "UNLISTED", False
 
 
+# per-object members that the syntactic criterion of scan_object_state() cannot clear, with the reason
+# why each is nevertheless not a carrier (or is a declared one)
+CARRIED = {
+    "LinearSupport::agenda_": "drained invariant: the do-while of every timestep leaves only through `agenda_.size() == 0` (pomdp ls scenario: reuse, same problem twice)",
+    "ReusingIterativeLocalSearch::action_": "declared feature (re-use of the last best action unless forceResetAction); with forceResetAction it is assigned before use (rils scenario)",
+    "LocalSearch::agents_": "resize(A.size()) + std::iota over the whole vector at the start of operator(): fully overwritten (rils / ve scenarios)",
+    "SARSOP::backuppedActions_": "resize(A) in operator(), std::fill(false) at the start of every backupNode before any read (sarsop scenario)",
+    "SARSOP::intermediateBeliefTmp_": "output buffer of updateBeliefPartial, written before every read in expandLeaf (sarsop scenario)",
+    "SARSOP::nextBeliefTmp_": "output buffer of updateBeliefPartialUnnormalized, written before every read in expandLeaf (sarsop scenario)",
+    "Projecter::immediateRewards_": "computed once by computeImmediateRewards(), which only the constructor calls; read-only afterwards",
+    "BeliefGenerator::helper_": "output buffer of updateBeliefPartial (passed as &helper_), written before every read (seeded / pbreuse / amdpm scenarios)",
+    "SARSOP::sampledNodes_": "cleared at the start of samplePoints(), which operator() calls before reading it (sarsop scenario)",
+}
+
+
 def inventory_cases():
     found = scan_repo()
     out = []
     seen = set()
+    for (rel, cls, member, why) in scan_object_state():
+        key = cls + "::" + member
+        ok = key in CARRIED
+        out.append("carrier %s 0 %s per-object-carried-state %s %s" % (rel, key, "covered" if ok else "unlisted", "object-scratch-argued" if ok else "UNLISTED"))
     for (rel, line, name, kind) in found:
         cls, ok = classify(rel, name, kind)
         seen.add(rel + "::" + name)
@@ -494,12 +671,85 @@ def g_pomdp(rng):
     return "pomdp %s %d %s %s" % (alg, h, fmt_pomdp(m1), fmt_pomdp(m2))
 
 
-def g_sarsop(rng):
+def hexf(x):
+    return float.hex(float(x))
+
+
+def xorshift_pomdp(S, A, O, salt, discount):
+    """small deterministic pseudo-random POMDP with general (non-dyadic) double entries: squared
+    xorshift draws, normalised in double arithmetic exactly as a C++ client would"""
+    x = [(2463534242 + salt * 977) & 0xFFFFFFFF]
+
+    def nxt():
+        v = x[0]
+        v ^= (v << 13) & 0xFFFFFFFF; v ^= v >> 17; v ^= (v << 5) & 0xFFFFFFFF
+        x[0] = v
+        return (v % 1000) + 1
+    T = [[[0.0] * S for _ in range(S)] for _ in range(A)]      # T[a][s][s1]
+    R = [[0.0] * A for _ in range(S)]
+    Ob = [[[0.0] * O for _ in range(S)] for _ in range(A)]     # Ob[a][s1][o]
+    for s in range(S):
+        for a in range(A):
+            vs = []
+            for s1 in range(S):
+                v = float(nxt()); vs.append(v * v)
+            tot = 0.0
+            for v in vs: tot += v
+            T[a][s] = [v / tot for v in vs]
+            R[s][a] = nxt() / 100.0
+    for s in range(S):
+        for a in range(A):
+            vs = []
+            for o in range(O):
+                v = float(nxt()); vs.append(v * v)
+            tot = 0.0
+            for v in vs: tot += v
+            Ob[a][s] = [v / tot for v in vs]
+    toks = [str(S), str(A), str(O), hexf(discount)]
+    for a in range(A):
+        for s in range(S):
+            toks += [hexf(v) for v in T[a][s]]
+    for s in range(S):
+        toks += [hexf(v) for v in R[s]]
+    for a in range(A):
+        for s1 in range(S):
+            toks += [hexf(v) for v in Ob[a][s1]]
+    return " ".join(toks)
+
+
+def uniform_belief(S):
+    return "%d %s" % (S, " ".join([hexf(1.0 / S)] * S))
+
+
+def g_sarsop(rng, salt=None):
+    """delta-sensitive SARSOP reuse: problem 2 is a 3x3x2 general-regime POMDP at discount 0.9 solved to
+    tolerance 1/2; problem 1 (differently sized) is solved coarsely first and moves delta_"""
+    # salts vetted on the real solver: SARSOP converges within the alarm; the first list is where a
+    # left-over delta_ changes the result (found with the seeded change of notes/C16.md)
+    sensitive = [10, 22, 35, 41, 84, 102, 112, 120]
+    converging = [1, 3, 4, 5, 6, 7, 8, 9, 12, 13, 14, 15, 17, 18, 20, 21, 23, 24, 26, 27, 28, 29, 30, 31, 32, 34, 36, 37, 38, 39, 40]
+    salt2 = (rng.choice(sensitive) if rng.random() < 0.7 else rng.choice(converging)) if salt is None else salt
+    S1, A1, O1 = rng.choice([(4, 2, 2), (4, 3, 2), (3, 2, 3), (5, 2, 2), (2, 3, 2)])
+    m1 = xorshift_pomdp(S1, A1, O1, rng.randrange(1, 10 ** 6), 0.9)
+    m2 = xorshift_pomdp(3, 3, 2, salt2, 0.9)
+    tol1 = rng.choice(["100", "50", "100"])
+    return "sarsop %s 1/2 %s %s %s %s" % (tol1, m1, uniform_belief(S1), m2, uniform_belief(3))
+
+
+def g_gapmin(rng):
+    S1, A1, O1 = rng.choice([(3, 2, 2), (2, 2, 2), (3, 2, 3), (2, 3, 2)])
+    m1 = xorshift_pomdp(S1, A1, O1, rng.randrange(1, 10 ** 6), 0.75)
+    S2 = 2 if S1 == 3 else 3
+    m2 = xorshift_pomdp(S2, 2, 2, rng.randrange(1, 200), 0.75)
+    return "gapmin %s %d %s %s %s %s" % (rng.choice(["1/2", "1/4", "1"]), rng.choice([2, 3]), m1, uniform_belief(S1), m2, uniform_belief(S2))
+
+
+def g_pbreuse(rng):
     S1, S2 = two_sizes(rng, 2, 3)
-    m1 = gen_pomdp(rng, S1, 2, rng.choice([1, 2]), rew="pos", gammas=(F(1, 2),))
-    m2 = gen_pomdp(rng, S2, rng.choice([1, 2]), 2, rew="pos", gammas=(F(1, 2),))
-    b1 = gen_beliefs(rng, S1, 1)[0]; b2 = gen_beliefs(rng, S2, 1)[0]
-    return "sarsop %s %s %s %s %s" % (rng.choice(["1/2", "1/8", "1"]), fmt_pomdp(m1), L(Qs(b1).split()), fmt_pomdp(m2), L(Qs(b2).split()))
+    O2 = rng.choice([2, 2, 3])
+    m1 = gen_pomdp(rng, S1, rng.choice([1, 2]), rng.choice([2, O2]), rew=rng.choice(["mixed", "pos"]))
+    m2 = gen_pomdp(rng, S2, rng.choice([2, 3]), O2, rew=rng.choice(["mixed", "pos"]))
+    return "pbreuse %s %d %s %s" % (rng.choice(["pbvi", "perseus"]), rng.randrange(2 ** 31), fmt_pomdp(m1), fmt_pomdp(m2))
 
 
 def g_seeded(rng):
@@ -573,7 +823,7 @@ def gen(rng, tier):
     out = []
     plan = [(lambda: g_prog(rng), 90), (lambda: g_fg(rng), 90), (lambda: g_amdp(rng), 24), (lambda: g_amdpm(rng), 8),
             (lambda: g_vi(rng, "vi"), 40), (lambda: g_vi(rng, "pi"), 16), (lambda: g_pomdp(rng), 24),
-            (lambda: g_sarsop(rng), 6), (lambda: g_seeded(rng), 12), (lambda: g_ve(rng, "ve"), 30), (lambda: g_ve(rng, "rils"), 16)]
+            (lambda: g_sarsop(rng), 16), (lambda: g_gapmin(rng), 5), (lambda: g_pbreuse(rng), 12), (lambda: g_seeded(rng), 12), (lambda: g_ve(rng, "ve"), 30), (lambda: g_ve(rng, "rils"), 16)]
     for f, n in plan:
         for _ in range(n * mult):
             out.append(f())
